@@ -318,6 +318,32 @@ func ruleIDsDelivered(c *Ctx) {
 	if n < 4 {
 		c.Undec(rule, "id consumers", "at least 4 consumer functions", "", fmt.Sprint(n))
 	}
+	// a failed allocation fails the request: an id slot left at 0 by an Alloc whose error was
+	// overwritten by the next one would be delivered, and delivered again by the next request
+	m := 0
+	for _, fn := range P.Funcs {
+		if P.isScaffold(fn) || fnPkgPath(fn) == modPath+"/server/id" || fn.Parent() != nil {
+			continue
+		}
+		res := fn.Signature.Results()
+		if res.Len() == 0 || !isErrorType(res.At(res.Len()-1).Type()) {
+			continue
+		}
+		var evs []Ev
+		for _, k := range []Callee{allocI, allocID} {
+			if len(callsIn(fn, false, k)) > 0 {
+				evs = append(evs, newSettledEv(fn, k.CName(), callMatcher(k)))
+			}
+		}
+		if len(evs) == 0 {
+			continue
+		}
+		m++
+		c.needOnSuccess(rule, fn, evs, all, "success is reported only when every id allocation made so far returned a nil error (none overwritten untested)")
+	}
+	if m < 3 {
+		c.Undec(rule, "id consumers that return an error", "at least 3", "", fmt.Sprint(m))
+	}
 }
 
 func init() {
